@@ -568,6 +568,15 @@ class NStep(Family):
         from rl_blox.blox.return_estimates import discounted_n_step_return
 
         g = self.item["gamma"]
+        # process history inside the item: the same routine is first called with ANOTHER discount on arrays of the same shape
+        # (a discount sweep, two trainings in one process), so anything remembered between calls is filled by that call
+        import jax.numpy as jnp
+
+        N_, H_ = self.dims() if hasattr(self, "dims") else (self.item["N"], self.item["H"])
+        try:
+            discounted_n_step_return(jnp.ones((N_, H_), dtype=jnp.float32), jnp.zeros((N_, H_), dtype=jnp.int32), 0.37)
+        except Exception:  # noqa: BLE001 - the decoy is not under test
+            pass
         if self.item["mode"] == "jit":
             self.fn = jax.jit(lambda r, te: discounted_n_step_return(r, te, g))
         else:
